@@ -1569,3 +1569,18 @@ package yqlib
 //@   noframe
 //@   at doTraverseMap: assert @merged-maps-are-read-like-the-map-itself {C13} arg0 == newMatches && arg1 == value.Alias && arg2 == wantedKey && arg3 == old(prefs) && arg4 == splat
 //@   at traverseMergeAnchor: assert @merge-lists-entry-by-entry {C13} arg0 == newMatches && arg2 == wantedKey && arg3 == old(prefs) && arg4 == splat
+
+// operator_sort_keys.go: sort_keys changes key order only (C15): the new content is the old entries re-indexed
+// by an injective map of [0, n) into itself (hence, n being finite, a permutation: no entry lost, none twice);
+// key and value of an entry stay together. (The order itself needs the body of the less function and is left to
+// the pinned tests.)
+//@ func sortKeys
+//@   props C15 C11
+//@   requires node != nil
+//@   modifies node.Content
+//@   ensures @same-number-of-entries {C15} len(node.Content) == old(len(node.Content))
+//@   at return: assert @an-injective-reordering-of-the-entries {C15} contents == old(node.Content) && node.Content == sortedContent && len(order) == len(contents) / 2 && forall(i, 0, len(order), 0 <= order[i] && order[i] < len(order) && sortedContent[2*i] == contents[2*order[i]] && sortedContent[2*i+1] == contents[2*order[i]+1]) && forall(i, 0, len(order), forall(k, 0, len(order), implies(order[i] == order[k], i == k)))
+//@   loop 1:
+//@     invariant 0 <= rangeidx() && rangeidx() <= len(order) && len(order) == len(contents) / 2 && contents == old(node.Content) && forall(k, 0, rangeidx(), order[k] == k)
+//@   loop 2:
+//@     invariant 0 <= rangeidx() && rangeidx() <= len(order) && len(order) == len(contents) / 2 && len(sortedContent) == len(contents) && contents == old(node.Content) && forall(i, 0, len(order), 0 <= order[i] && order[i] < len(order)) && forall(i, 0, len(order), forall(k, 0, len(order), implies(order[i] == order[k], i == k))) && forall(i, 0, rangeidx(), sortedContent[2*i] == contents[2*order[i]] && sortedContent[2*i+1] == contents[2*order[i]+1])
